@@ -190,3 +190,31 @@ def parallel_purity(ck, exe, oplines, what, iters=400, group=4, env=None):
                               "replay": "echo 'x par %d <ops joined by ; with , for spaces>' | harness/drv.cpp built against /repo (real threads: repeat if it does not show at once)" % iters})
                 return
     ck.cov.setdefault("case_classes", {})["concurrent-use/" + what] = len(oplines)
+    # the same groups once more under ThreadSanitizer (a test): a race on state shared between calls - a lazily built table, a
+    # static scratch block - is reported even when this run's timing happened to give the right answers
+    import os, subprocess
+    try:
+        texe = ck.impl_driver(buf=4, hbuf=4, extra_flags=["-fsanitize=thread"])
+    except wv.BuildError as e:
+        ck.notes.append("TSan build failed: " + str(e)[-200:])
+        return
+    e = dict(os.environ)
+    e.update(env or ck.env())
+    e["TSAN_OPTIONS"] = "halt_on_error=1 exitcode=66 suppressions=" + os.path.join(wv.HARNESS, "tsan.supp")
+    tl = ["t%d par 12 %s" % (gi, ";".join(oplines[i].replace(" ", ",") for i in g)) for gi, g in enumerate(groups)]
+    # every group in a process of its own: the FIRST use of a lazily initialised object happens once per process
+    def one(l):
+        try:
+            return subprocess.run([texe], input=l + "\n", capture_output=True, text=True, timeout=300, env=e)
+        except subprocess.TimeoutExpired:
+            return None
+    from concurrent.futures import ThreadPoolExecutor
+    with ThreadPoolExecutor(max_workers=8) as ex:
+        outs = list(ex.map(one, tl))
+    ck.cov["tsan_concurrent_use_groups"] = ck.cov.get("tsan_concurrent_use_groups", 0) + len(tl)
+    for l, p in zip(tl, outs):
+        if p is not None and p.returncode == 66 and "ThreadSanitizer: data race" in p.stderr:
+            rep = p.stderr[p.stderr.find("WARNING: ThreadSanitizer"):][:1800]
+            ck.violation("%s used from several threads at once: ThreadSanitizer reports a data race on state shared between the calls" % what,
+                         {"class": None, "case": l[:2000], "thread_sanitizer_report": rep, "replay": "build harness/drv.cpp against /repo with -fsanitize=thread; echo '<case>' | ./drv"})
+            return
